@@ -3,6 +3,7 @@ import AthlibVerif.Lemmas.RankOrder
 import AthlibVerif.Lemmas.Interleave
 import AthlibVerif.Lemmas.CardLog
 import AthlibVerif.Lemmas.RoundRobin
+import AthlibVerif.Lemmas.Import
 /-!
 # C08 — High jump: replaying the log or the card, in any jumping order, rebuilds it
 
@@ -249,6 +250,116 @@ theorem C08_round_robin_import (pre seg post : List Op) (order : List Nat) (hn :
     funext op
     cases op <;> simp [bibOf]
   rw [hfun] at this; exact this
+
+/-- nobody has a clearance yet, or places follow the keys and the competition is under way -/
+def FreshOrRanked (c : Comp) : Prop :=
+  (∀ j ∈ c.jumpers, j.bestIdx = none) ∨ (Ranked c ∧ c.phase ≠ .scheduled)
+
+theorem freshOrRanked_reachable (c : Comp) (h : Reachable c) : FreshOrRanked c := by
+  induction h with
+  | init => exact Or.inl (fun j hj => by cases hj)
+  | step c op hr ih =>
+    have hg := good_reachable c hr
+    cases op with
+    | add b =>
+      rw [step_add]
+      split
+      · next hc =>
+        rcases ih with ih | ih
+        · left
+          intro j hj
+          simp only [addResult, List.mem_append, List.mem_singleton] at hj
+          rcases hj with hj | rfl
+          · exact ih j hj
+          · rfl
+        · exact absurd hc.1 ih.2
+      · exact ih
+    | bar x =>
+      rw [step_bar]
+      split
+      · rcases ih with ih | ih
+        · left
+          intro j' hj'
+          simp only [barResult] at hj'
+          obtain ⟨j, hj, rfl⟩ := List.mem_map.1 hj'
+          split <;> exact ih j hj
+        · right
+          refine ⟨barResult_ranked c x ih.1, ?_⟩
+          simp only [barResult]
+          split
+          · intro e; cases e
+          · exact ih.2
+      · exact ih
+    | trial b t =>
+      rcases step_trial c b t with ⟨j, j', _, hta, _, _, hs⟩ | ⟨h1, _⟩
+      · rw [hs]
+        right
+        show Ranked (rank (logTrial c b t j')) ∧ (rank (logTrial c b t j')).phase ≠ .scheduled
+        have hwl : WF (logTrial c b t j') :=
+          WF_of_same_bibs c (logTrial c b t j') (by simp [update_bibs]) (List.Perm.refl _) hg.wf
+        refine ⟨(rank_ok _ hwl).2, ?_⟩
+        have hps := (rank_frame (logTrial c b t j')).2
+        simp only [logTrial_phase] at hps
+        have hcs : c.phase ≠ .scheduled := by
+          intro e; unfold trialAllowed at hta; simp [e] at hta
+        rcases hps with e | e | e | e | ⟨e, _⟩ <;> rw [e] <;> first | exact hcs | (intro h; cases h)
+      · rw [h1]; exact ih
+
+theorem allBest_reachable' (c : Comp) (h : Reachable c) : AllBest c := by
+  induction h with
+  | init => intro j hj; cases hj
+  | step c op hr ih => exact step_AllBest c op (good_reachable c hr).wf ih
+
+/-- **A pass is only a mark** (every reachable competition): an accepted pass leaves state, heights, bests, shown
+    places and every card — pass marks and empty cells at the end aside — exactly as they were.  This is the
+    "explicit pass marks aside" of the card round trip: the card import drops `-`. -/
+theorem C08_pass_is_only_a_mark (c : Comp) (h : Reachable c) (b : Nat) (hok : (step c (.trial b .p)).2 = .ok) :
+    obsP (step c (.trial b .p)).1 = obsP c := by
+  have hg := good_reachable c h
+  have hfr : RankedOrFresh c := by
+    rcases freshOrRanked_reachable c h with e | e
+    · exact Or.inr e
+    · exact Or.inl e.1
+  exact (pass_only_a_mark c hg.wf hg.flags (allBest_reachable' c h) hfr b hok).1
+
+/-- **The passes can be dropped from a history**: if every call of a history is accepted, so is every call of the
+    history without its passes, and the two competitions show the same — state, heights, bests, places and cards,
+    pass marks and empty cells at the end aside.  (The card import never replays a `-`; a pass changes who may still
+    jump at the height, so that the rest of the history is still accepted without it is not a triviality.) -/
+theorem C08_passes_can_be_dropped (ops : List Op) (hacc : acceptedFrom {} ops = ops) :
+    acceptedFrom {} (ops.filter notPass) = ops.filter notPass ∧
+    obsP (runFrom {} (ops.filter notPass)) = obsP (runFrom {} ops) := by
+  rw [accepted_eq_iff] at hacc ⊢
+  obtain ⟨h1, h2⟩ := erase_run ops {} {} einv_init good_init.wf sim_init hacc
+  exact ⟨h1, sim_obsP _ _ h2⟩
+
+/-- **The card import, whole competitions**: a history "registrations, then for each bar the bar and the trials
+    taken at it", accepted in full, and its import "registrations, then for each bar the bar and attempt 1, then 2,
+    then 3 of everybody in card order, passes left out" (the loop of `from_matrix`, with the cells of the card being
+    each athlete's marks at that bar): the import is accepted in full as well and ends showing the same — state,
+    heights, bests, places and cards, pass marks aside.  `order` is any duplicate-free list of bibs that contains
+    every athlete who jumped. -/
+theorem C08_card_import (adds : List Op) (hadds : ∀ op ∈ adds, ∃ b, op = Op.add b) (order : List Nat) (hn : order.Nodup)
+    (bs : List Block) (hb : ∀ b ∈ bs, BlockOK order b) (hacc : acceptedFrom {} (adds ++ flat bs) = adds ++ flat bs) :
+    acceptedFrom {} (adds ++ imported order bs) = adds ++ imported order bs ∧
+    obsP (runFrom {} (adds ++ imported order bs)) = obsP (runFrom {} (adds ++ flat bs)) := by
+  rw [accepted_eq_iff] at hacc ⊢
+  exact import_blocks adds hadds order hn bs hb hacc
+
+/-! non-vacuity (kernel-evaluated tests, not the theorem): a history with passes, a jump-off and a lowered bar is accepted in full, and so
+    is its import, with the same result sheet -/
+def sampleAdds : List Op := [.add 1, .add 2, .add 3]
+def sampleBlocks : List Block :=
+  [(100, [.trial 1 .p, .trial 2 .o, .trial 3 .x, .trial 3 .o]),
+   (105, [.trial 3 .x, .trial 1 .x, .trial 2 .x, .trial 1 .p, .trial 2 .x, .trial 3 .x, .trial 3 .x, .trial 2 .x]),
+   (110, [.trial 1 .x, .trial 1 .x])]
+example : acceptedFrom {} (sampleAdds ++ flat sampleBlocks) = sampleAdds ++ flat sampleBlocks := by decide +kernel
+example : acceptedFrom {} (sampleAdds ++ imported [1, 2, 3] sampleBlocks) = sampleAdds ++ imported [1, 2, 3] sampleBlocks := by
+  decide +kernel
+example : imported [1, 2, 3] sampleBlocks ≠ flat sampleBlocks := by decide +kernel
+set_option synthInstance.maxSize 512 in
+example : obsP (runFrom {} (sampleAdds ++ imported [1, 2, 3] sampleBlocks)) = obsP (runFrom {} (sampleAdds ++ flat sampleBlocks)) := by
+  decide +kernel
 
 /-! non-vacuity (kernel-evaluated): a history with refused calls; its log replays to the same state -/
 example : (runFrom {} [.add 1, .bar 0, .bar 105, .trial 1 .o, .trial 1 .o, .add 2]).log =
